@@ -143,6 +143,19 @@ class Interp:
         return None
 
     def _sum_call(self, args, rec):
+        if len(args) == 1 and isinstance(args[0], (ast.ListComp, ast.GeneratorExp)) and len(args[0].generators) == 2:
+            # sum(E(x) for c in CS for x in (a(c), b(c), ..))  ==  sum(E(a(c)) + E(b(c)) + .. for c in CS)
+            g0, g1 = args[0].generators
+            if not g0.ifs and not g1.ifs and isinstance(g1.iter, (ast.Tuple, ast.List)) and isinstance(g1.target, ast.Name) and isinstance(g0.target, ast.Name):
+                tot = None
+                for e_ in g1.iter.elts:
+                    t_ = _SubstNames({g1.target.id: e_}).visit(clone(args[0].elt))
+                    tot = t_ if tot is None else ast.BinOp(left=tot, op=ast.Add(), right=t_)
+                if tot is not None:
+                    ast.fix_missing_locations(tot)
+                    inner = rec(tot)
+                    if inner is not None:
+                        return sum_over(g0.target.id, norm(g0.iter), inner)
         if len(args) == 1 and isinstance(args[0], (ast.ListComp, ast.GeneratorExp)) and len(args[0].generators) == 1:
             g = args[0].generators[0]
             if not g.ifs and isinstance(g.target, ast.Name):
@@ -913,8 +926,15 @@ def check(repo, rep, tier):
                 r2.violation(fi.loc(cev.node), fi.fq, "%d events per constraint" % len(inner), "constraint record is not "
                              "three (count, terms) pairs", "cshape")
             if lcs:
-                index_map = lcs[0][1][0].value
-                if any(norm(f[0].value) != norm(index_map) for _lp, f in lcs):
+                def canon_im(lp_, node_):
+                    """the wire-index expression with the loop's own key variable called `k` (per-part copies of one loop
+                    have per-part variable names)"""
+                    tg_ = getattr(lp_.node, "target", None)
+                    kv_ = tg_.elts[0].id if isinstance(tg_, ast.Tuple) and tg_.elts and isinstance(tg_.elts[0], ast.Name) else (
+                        tg_.id if isinstance(tg_, ast.Name) else None)
+                    return _SubstNames({kv_: ast.Name(id="k", ctx=ast.Load())}).visit(clone(node_)) if kv_ else node_
+                index_map = canon_im(lcs[0][0], lcs[0][1][0].value)
+                if any(norm(canon_im(_lp, f[0].value)) != norm(index_map) for _lp, f in lcs):
                     r3.violation(fi.loc(cev.node), fi.fq, "index maps differ between A, B, C", "wire index computed "
                                  "differently in the three parts", "indexmap/abc")
         else:
@@ -1003,7 +1023,9 @@ def check(repo, rep, tier):
                 if var is None:
                     return None
                 arm = neg_arm if negative else pos_arm
-                return poly_of(arm, {var: key, "len(pubvals)": Pp, "len(privvals)": Ww}, strict=True)
+                env_ = dict(it.env)            # locals of prove() (npub = len(pubvals)) as polynomials in P, W
+                env_.update({var: key, "len(pubvals)": Pp, "len(privvals)": Ww})
+                return poly_of(arm, env_, strict=True)
             return None
         slot_pub = fmap(pub[0], False)
         slot_prv = fmap(prv[0], True)
